@@ -26,6 +26,8 @@ type pathInfo struct {
 	atomVal  []ssa.Value
 	in       []map[uint64]bool
 	kill     []uint64 // per block: atoms whose condition value is defined in the block
+	addMemo  map[litKey][]uint64
+	depth    int
 }
 
 func (pi *pathInfo) predMask(m uint64) uint32 {
@@ -64,8 +66,157 @@ func edgeLit(pr, succ *ssa.BasicBlock) (Lit, bool) {
 	return Lit{V: v, Pos: !pos}, true
 }
 
+// inlineDepth: how many levels of module helper calls the path engine looks into when a branch
+// literal asserts the success of a call (error result nil / boolean result true|false).
+const inlineDepth = 2
+
 func (p *Prog) pathMasks(fn *ssa.Function, preds []Pred) *pathInfo {
-	pi := &pathInfo{fn: fn, preds: preds}
+	if p.inlineMemo != nil {
+		// nested use from within a predicate: share nothing, but do not inline further
+		return p.pathMasksD(fn, preds, 0)
+	}
+	p.inlineMemo = map[calleeKey][]uint32{}
+	defer func() { p.inlineMemo = nil }()
+	return p.pathMasksD(fn, preds, inlineDepth)
+}
+
+type calleeKey struct {
+	h     *ssa.Function
+	kind  succKind
+	idx   int
+	depth int
+}
+
+// litMasks: the set of predicate masks that asserting literal l may establish: the predicates it
+// matches directly, combined (when l asserts the success of a call to a module helper H) with each
+// mask that a success return of H may carry — virtual inlining of H's paths, so that a check moved
+// into a helper, including a disjunctive one, is decided exactly as if it were written in place.
+func (p *Prog) litMasks(l Lit, preds []Pred, depth int) []uint32 {
+	var direct uint32
+	for i, q := range preds {
+		if q(l) {
+			direct |= 1 << uint(i)
+		}
+	}
+	if depth <= 0 {
+		return []uint32{direct}
+	}
+	h, kind, idx, _ := p.successOfCall(l)
+	if h == nil {
+		return []uint32{direct}
+	}
+	if p.inlining == nil {
+		p.inlining = map[*ssa.Function]bool{}
+	}
+	if p.inlining[h] {
+		return []uint32{direct}
+	}
+	ck := calleeKey{h, kind, idx, depth}
+	if cached, ok := p.inlineMemo[ck]; ok {
+		res := make([]uint32, len(cached))
+		for i, m := range cached {
+			res[i] = m | direct
+		}
+		return res
+	}
+	p.inlining[h] = true
+	defer delete(p.inlining, h)
+	set := map[uint32]bool{}
+	pi := p.pathMasksD(h, preds, depth-1)
+	rets := p.succRets(h, kind, idx)
+	if len(rets) == 0 {
+		return []uint32{direct}
+	}
+	for _, rp := range rets {
+		var ms []uint32
+		if rp.pred != nil {
+			var adds []uint64
+			if el, ok := edgeLit(rp.pred, rp.ret.Block()); ok {
+				adds = pi.edgeAdds(p, el)
+			} else {
+				adds = []uint64{0}
+			}
+			for m := range pi.in[rp.pred.Index] {
+				for _, a := range adds {
+					ms = append(ms, pi.predMask((m&^pi.kill[rp.pred.Index])|a))
+				}
+			}
+		} else {
+			for m := range pi.in[rp.ret.Block().Index] {
+				ms = append(ms, pi.predMask(m))
+			}
+		}
+		// a dynamic returned value: the helper's success implies that value's
+		var implied []uint32
+		if v := rp.val; v != nil {
+			if _, isConst := v.(*ssa.Const); !isConst {
+				il := Lit{V: v, Pos: kind == boolTrue}
+				if kind == errNil {
+					il = Lit{V: v, Pos: true, Nil: true}
+				}
+				implied = p.litMasks(il, preds, depth-1)
+			}
+		}
+		if implied == nil {
+			implied = []uint32{0}
+		}
+		for _, m := range ms {
+			for _, im := range implied {
+				set[m|im] = true
+			}
+		}
+	}
+	if len(set) == 0 {
+		set[0] = true
+	}
+	var raw []uint32
+	for m := range set {
+		raw = append(raw, m)
+	}
+	if p.inlineMemo != nil {
+		p.inlineMemo[ck] = raw
+	}
+	res := make([]uint32, len(raw))
+	for i, m := range raw {
+		res[i] = m | direct
+	}
+	return res
+}
+
+// edgeAdds: the alternative atom sets added by traversing an edge with literal l.
+func (pi *pathInfo) edgeAdds(p *Prog, l Lit) []uint64 {
+	key := litKey{l.V, l.Pos}
+	if r, ok := pi.addMemo[key]; ok {
+		return r
+	}
+	var res []uint64
+	seen := map[uint64]bool{}
+	for _, pm := range p.litMasks(l, pi.preds, pi.depth) {
+		var bits uint64
+		for i := range pi.atomPred {
+			if pi.atomVal[i] == l.V && pm&(1<<uint(pi.atomPred[i])) != 0 {
+				bits |= 1 << uint(i)
+			}
+		}
+		if !seen[bits] {
+			seen[bits] = true
+			res = append(res, bits)
+		}
+	}
+	if pi.addMemo == nil {
+		pi.addMemo = map[litKey][]uint64{}
+	}
+	pi.addMemo[key] = res
+	return res
+}
+
+type litKey struct {
+	v   ssa.Value
+	pos bool
+}
+
+func (p *Prog) pathMasksD(fn *ssa.Function, preds []Pred, depth int) *pathInfo {
+	pi := &pathInfo{fn: fn, preds: preds, depth: depth}
 	nb := len(fn.Blocks)
 	pi.in = make([]map[uint64]bool, nb)
 	pi.kill = make([]uint64, nb)
@@ -85,8 +236,14 @@ func (p *Prog) pathMasks(fn *ssa.Function, preds []Pred) *pathInfo {
 					continue
 				}
 				seenCond[v] = true
-				for i, q := range preds {
-					if q(Lit{V: v, Pos: true}) || q(Lit{V: v, Pos: false}) {
+				var any uint32
+				for _, pol := range []bool{true, false} {
+					for _, pm := range p.litMasks(Lit{V: v, Pos: pol}, preds, depth) {
+						any |= pm
+					}
+				}
+				for i := range preds {
+					if any&(1<<uint(i)) != 0 {
 						if len(pi.atomPred) >= 63 {
 							panic("pathMasks: more than 63 (predicate, condition) atoms in " + fn.String())
 						}
@@ -109,16 +266,18 @@ func (p *Prog) pathMasks(fn *ssa.Function, preds []Pred) *pathInfo {
 		work = work[1:]
 		inWork[b] = false
 		for _, s := range b.Succs {
-			var add uint64
+			adds := []uint64{0}
 			if l, ok := edgeLit(b, s); ok {
-				add = pi.atomBits(l)
+				adds = pi.edgeAdds(p, l)
 			}
 			changed := false
 			for m := range pi.in[b.Index] {
-				nm := (m &^ pi.kill[b.Index]) | add
-				if !pi.in[s.Index][nm] {
-					pi.in[s.Index][nm] = true
-					changed = true
+				for _, add := range adds {
+					nm := (m &^ pi.kill[b.Index]) | add
+					if !pi.in[s.Index][nm] {
+						pi.in[s.Index][nm] = true
+						changed = true
+					}
 				}
 			}
 			if changed && !inWork[s] {
@@ -146,14 +305,16 @@ func (p *Prog) allPaths(at ssa.Instruction, preds []Pred, formula func(uint32) b
 // allPathsEdge: same, for the paths that reach block succ through the edge pred->succ.
 func (p *Prog) allPathsEdge(pred, succ *ssa.BasicBlock, preds []Pred, formula func(uint32) bool) (bool, uint32) {
 	pi := p.pathMasks(pred.Parent(), preds)
-	var add uint64
+	adds := []uint64{0}
 	if l, ok := edgeLit(pred, succ); ok {
-		add = pi.atomBits(l)
+		adds = pi.edgeAdds(p, l)
 	}
 	for m := range pi.in[pred.Index] {
-		nm := (m &^ pi.kill[pred.Index]) | add
-		if pm := pi.predMask(nm); !formula(pm) {
-			return false, pm
+		for _, add := range adds {
+			nm := (m &^ pi.kill[pred.Index]) | add
+			if pm := pi.predMask(nm); !formula(pm) {
+				return false, pm
+			}
 		}
 	}
 	return true, 0
